@@ -188,7 +188,6 @@ static void tree_step() {
 HARNESS h_tree_insert_d2() { tree_step<2, 3, false>(); }
 HARNESS h_tree_remove_d2() { tree_step<2, 3, true>(); }
 HARNESS h_tree_insert_d3() { tree_step<3, 5, false>(); }
-HARNESS h_tree_remove_d3() { tree_step<3, 5, true>(); }
 
 // =================================================================================================================
 // ArenaHash
@@ -208,14 +207,22 @@ static void hash_mod_case() {
   const unsigned idx = IDX < ASMJIT_ARRAY_SIZE(ArenaHash_prime_array) ? IDX : 0;
   // The SAT back end cannot decide the 32x32-bit multiply/remainder equivalence over all 2^32 codes for small primes (no
   // verdict in 15 min for p = 11). Decided here: (a) all codes below 2^16 symbolically through the real _calc_mod, and (b) the
-  // precondition of the division-by-invariant-multiplication theorem (Granlund, Montgomery 1994, Thm 4.2: if
-  // 2^s <= m*p <= 2^s + 2^(s-32) then floor(m*h / 2^s) = floor(h / p) for all h < 2^32) for the table constants.
+  // exactness condition of division by multiplication with a reciprocal on the table constants: with m*p = 2^s + e, e >= 0, and
+  // h = q*p + r:  m*h / 2^s = q + r/p + e*h / (p*2^s), so floor(m*h / 2^s) = q  iff  e*h < (p - r) * 2^s. For h < N = 2^32 this
+  // holds for every h iff it holds for the largest h with r = p-1 (e*h < 2^s) provided e*N < 2 * 2^s (then every r <= p-2 is
+  // covered by e*h < e*N < 2 * 2^s <= (p-r) * 2^s). (Granlund, Montgomery 1994, Thm 4.2 is the special case e*N <= 2^s; two
+  // table entries, 42543269 and 196630033, exceed that but satisfy the exact condition.)
   uint32_t h = nondet_u16();
   {
-    unsigned __int128 mp = (unsigned __int128)ArenaHash_prime_array[idx].rcp * ArenaHash_prime_array[idx].prime;
+    const uint64_t prime = ArenaHash_prime_array[idx].prime;
+    unsigned __int128 mp = (unsigned __int128)ArenaHash_prime_array[idx].rcp * prime;
     unsigned sh = ArenaHash_prime_shift[idx];
     unsigned __int128 two_s = (unsigned __int128)1 << sh;
-    V_ASSERT(sh >= 32 && sh < 64 && mp >= two_s && mp <= two_s + (two_s >> 32), "hash: table constants satisfy the exactness condition of reciprocal division for 32-bit codes");
+    const uint64_t N = uint64_t(1) << 32;
+    uint64_t hmax = (N / prime) * prime + prime - 1; if (hmax >= N) hmax -= prime;   // largest h < 2^32 with h mod p == p-1
+    V_ASSERT(sh >= 32 && sh < 64 && mp >= two_s, "hash: reciprocal is not below 2^s / p");
+    unsigned __int128 e = mp - two_s;
+    V_ASSERT(e * N < (two_s << 1) && e * hmax < two_s, "hash: table constants satisfy the exactness condition of reciprocal division for all 32-bit codes");
   }
   ArenaHash<HNode> t;
   t._buckets_count = ArenaHash_prime_array[idx].prime; t._rcp_value = ArenaHash_prime_array[idx].rcp; t._rcp_shift = ArenaHash_prime_shift[idx];
